@@ -11,14 +11,14 @@ func multiPointReader(r io.Reader, byteOrder binary.ByteOrder) (geom.Geom, error
 	if err := binary.Read(r, byteOrder, &numPoints); err != nil {
 		return nil, err
 	}
-	points := make([]geom.Point, numPoints)
+	points := make([]geom.Point, 0, capHint(numPoints, maxMemberHint))
 	for i := uint32(0); i < numPoints; i++ {
 		if g, err := Read(r); err == nil {
-			var ok bool
-			points[i], ok = g.(geom.Point)
+			p, ok := g.(geom.Point)
 			if !ok {
 				return nil, &UnexpectedGeometryError{g}
 			}
+			points = append(points, p)
 		} else {
 			return nil, err
 		}
